@@ -323,6 +323,38 @@ def table_names_semantics():
     return {"table_rows": rows, "distinct": rows, "violations": violations, "samples": [{"rule": cases[0][0]}]}
 
 
+def h_nucleic_state(eng, ff, kind):
+    """a nucleotide is keyed by its FINAL state: ribo iff the written residue has O2' (also when the input lacked
+    O2' or other atoms and repair rebuilt them), 5' / 3' by chain position"""
+    from pdb2pqr import main
+
+    bases = ["RA", "RC", "RG", "RU"] if kind == "rna" else ["DA", "DC", "DG", "DT"]
+    mid = bases[eng.choice("middle_base", 4)]
+    menu = [(), ("O2'",), ("C2'",), ("O4'",), ("N1",), ("O2'", "C2'")] if kind == "rna" else [(), ("C2'",), ("O4'",), ("N1",)]
+    omit = menu[eng.choice("atoms_missing_from_input", len(menu))]
+    seq = [bases[2], mid, bases[1]]
+    lines, serial = [], 1
+    for i, name in enumerate(seq):
+        rl = fixtures.residue_lines(name, "A", i + 1, serial, (9.0 * i, 0.0, 0.0), omit=omit if i == 1 else ())
+        serial += len(rl)
+        lines += rl
+    lines.append("TER")
+    try:
+        bm, defn = fixtures.prepared(lines)
+        args = fixtures.Args(ff=ff, pka_method=None, debump=True, opt=True)
+        r = main.non_trivial(args, bm, None, defn, False)
+    except (ValueError, KeyError, IndexError) as e:
+        eng.check(True, "loud-failure-tolerated", note=f"{type(e).__name__}: {str(e)[:80]}")
+        return
+    missed = [(a.residue.name, a.name) for a in r["missed_residues"]]
+    eng.check(not missed, "every-atom-parameterised", note=f"{seq} with {omit or 'nothing'} missing from the input: unassigned {missed[:5]}")
+    for i, x in enumerate(bm.residues):
+        ribo = x.has_atom("O2'")
+        want = ("R" if ribo else "D") + x.name[-1]
+        want += "5" if i == 0 else "3" if i == len(seq) - 1 else ""
+        eng.check(str(x.ffname) == want, "nucleotide-keyed-by-final-state", note=f"{seq} with {omit or 'nothing'} missing from the input: residue {i + 1} ({'with' if ribo else 'without'} O2') is parameterised as {x.ffname}, final state is {want}")
+
+
 def obligations(tier):
     obs = []
     seps_list = [[" "], ["\t"], ["   ", " \t "]] if tier == "quick" else [[" "], ["\t"], ["   ", " \t "], ["  ", "\t\t"]]
@@ -345,6 +377,8 @@ def obligations(tier):
         residues = list(STATES) if tier == "thorough" else ["ASP", "CYS", "LYS", "HIS", "ALA"]
         obs.append(Obligation(f"states-{ff}", table_states, dict(ff=ff, residues=residues), kind="table", group="states"))
     obs.append(Obligation("states-parse-neutral-termini", table_states, dict(ff="parse", residues=list(STATES) if tier == "thorough" else ["ASP", "CYS", "ALA", "PRO"], neutral=True), kind="table", group="states"))
+    for ff, kind in (("amber", "rna"), ("amber", "dna")) if tier == "quick" else [(f, k) for k, ffs in (("rna", ("amber", "charmm", "parse", "tyl06")), ("dna", ("amber", "charmm", "tyl06"))) for f in ffs]:
+        obs.append(Obligation(f"nucleic-state-{kind}-{ff}", h_nucleic_state, dict(ff=ff, kind=kind), group="nucleic-state", time_cap=1500))
     obs.append(Obligation("names-semantics", table_names_semantics, {}, kind="table", group="names"))
     return obs
 
